@@ -427,7 +427,8 @@ pub fn c10(args: &Args) -> i32 {
         }
     });
     run.put("histories_completed", json!(done));
-    crate::e4_c10::interleavings(&run);
+    let (hist_states, hist_transitions) = (done as u64, work.iter().take(done).map(|(_, h)| h.len() as u64).sum::<u64>());
+    crate::e4_c10::interleavings(&run, hist_states, hist_transitions);
     run.finish()
 }
 
